@@ -416,6 +416,9 @@ pub struct Script {
     /// the embedder changes the shared app set between start() and the first poll of the stream: (app index, 0 = empty
     /// the id, 1 = set the version to 0)
     pub spoil_app_after_start: Option<(usize, u8)>,
+    /// once the scripted HTTP answers are used up: false = every further request gets a genuine 200 'no update', true = the
+    /// last scripted answer is given again and again (a server that keeps failing the same way)
+    pub repeat_last_http: bool,
 }
 
 impl Default for Script {
@@ -442,6 +445,7 @@ impl Default for Script {
             metrics_fail: false,
             log_enabled: false,
             spoil_app_after_start: None,
+            repeat_last_http: false,
         }
     }
 }
